@@ -345,6 +345,10 @@ fn apply_real<T: Elem>(s: &mut Stack<T>, op: Op, vals: &[u32]) -> Ret {
     }
 }
 
+fn serial_hint(v: &[u32]) -> u32 {
+    v.last().copied().unwrap_or(0) ^ v.len() as u32
+}
+
 fn contents<T: Elem>(s: &Stack<T>) -> Vec<u32> {
     let mut c = s.clone();
     let mut out = Vec::new();
@@ -440,6 +444,30 @@ fn step<T: Elem>(
             json!({"history": path.iter().map(|o| o.render()).collect::<Vec<_>>(), "operation": op.render(),
                    "size()": real.size(), "is_empty()": real.is_empty(), "actual_len": now.len()})
         });
+    }
+    // the two observation channels must agree: `Stack == sequence` (Vec, slice, array forms) is
+    // true exactly for the contents obtained by popping a clone - not for a proper prefix of
+    // them, not for an extension, not for a same-length sequence differing in one place
+    if now.len() <= 64 || serial_hint(&now) % 97 == 0 {
+        let same: Vec<T> = now.iter().map(|v| T::mk(*v)).collect();
+        let mut longer: Vec<T> = now.iter().map(|v| T::mk(*v)).collect();
+        longer.push(T::mk(u32::MAX));
+        let shorter: Vec<T> = now.iter().take(now.len().saturating_sub(1)).map(|v| T::mk(*v)).collect();
+        let mut changed: Vec<T> = now.iter().map(|v| T::mk(*v)).collect();
+        if let Some(last) = changed.last_mut() {
+            *last = T::mk(u32::MAX - 1);
+        }
+        let eq_same = *real == same && *real == same[..] && *real == &same[..];
+        let eq_longer = *real == longer || *real == longer[..];
+        let eq_shorter = !now.is_empty() && (*real == shorter || *real == shorter[..]);
+        let eq_changed = !now.is_empty() && (*real == changed || *real == &changed[..]);
+        if !eq_same || eq_longer || eq_shorter || eq_changed {
+            ok = false;
+            rep.violation(format!("C04/equality-disagrees-with-contents{}", ctx), || {
+                json!({"history": path.iter().map(|o| o.render()).collect::<Vec<_>>(), "operation": op.render(), "contents_by_popping_a_clone": brief(&now),
+                       "stack == its contents": eq_same, "stack == contents + one more element": eq_longer, "stack == contents without the top": eq_shorter, "stack == contents with the top replaced": eq_changed})
+            });
+        }
     }
     if real.max_stack_size() != new_cap {
         ok = false;
